@@ -5,7 +5,7 @@
 * memory = objects (allocas, globals, stub-returned buffers) with a size; a pointer = (object, concrete offset) plus the
   bounds of the sub-object the last getelementptr selected; every load/store carries the obligation 0 <= off, off+width <= size;
 * branches on symbolic conditions fork; external calls are stubs supplied by the harness.
-Limits: offsets are concrete (no symbolic indexing), no floating point except sitofp, no varargs beyond the stubs, no function
+Limits: a symbolic array index is resolved by forking over its feasible values (at most index_cap = 64), no floating point except sitofp, no varargs beyond the stubs, no function
 pointers, internal calls must be stubbed by the harness.
 """
 import copy
@@ -166,6 +166,7 @@ class Interp:
         self.queries = self.paths = self.steps = self.obligations = self.discharged = self.unknown = self.branches = 0
         self.solver_s = 0.0
         self.findings = []
+        self.index_cap = 64
 
     def sat(self, st, *extra):
         s = z3.Solver()
@@ -228,6 +229,9 @@ class Interp:
             data = self.mod.globals.get(name)
             if data is None:
                 st.objs[k] = Obj(k, 16)   # opaque external global (e.g. _Py_NoneStruct, PyExc_*)
+                if name in ("@_Py_NoneStruct", "@_Py_TrueStruct", "@_Py_FalseStruct"):
+                    # CPython 3.12 singletons are immortal: ob_refcnt = _Py_IMMORTAL_REFCNT (UINT_MAX on 64-bit builds)
+                    st.objs[k].bytes = {i: z3.BitVecVal(0xFF if i < 4 else 0, 8) for i in range(8)}
             else:
                 st.objs[k] = Obj(k, len(data), {i: z3.BitVecVal(b, 8) for i, b in enumerate(data)})
         return Ptr(k, 0, 0, st.objs[k].size)
@@ -253,6 +257,9 @@ class Interp:
                 v = Ptr(k, 0, 0, 16)
                 o.cells[p.off] = (nbytes, v)
                 return v
+            if p.obj.startswith("alloca") and not any(p.off <= b < p.off + nbytes for b in o.bytes) and not any(base < p.off + nbytes and p.off < base + w_ for base, (w_, _) in o.cells.items()):
+                # a local pointer variable that no store (of this function or of a stub) has written on this path
+                raise Violation(f"load of an uninitialised local pointer {p.obj.split('#')[0]} (no store reaches it on this path)")
             raise NotImplementedError(f"pointer load from raw bytes {p}")
         bs = []
         for i in range(nbytes):
@@ -274,6 +281,46 @@ class Interp:
         if off not in o.bytes:
             o.bytes[off] = z3.BitVec(f"{obj}[{off}]", 8)
         return o.bytes[off]
+
+    def _gep_linear(self, st, ty, idxs, symtok):
+        """for a getelementptr whose only non-constant index is register `symtok`: (coefficient of that index in bytes, byte offset
+        contributed by the constant indices, size of the element finally addressed); None when the shape is not supported"""
+        toks = [x.split()[1] for x in idxs.strip(", ").split(", ")]
+        coef, off, cur = None, 0, ty
+        for pos, tok in enumerate(toks):
+            if tok.startswith("%"):
+                v = z3.simplify(st.regs[tok])
+                const = v.as_signed_long() if z3.is_bv_value(v) else None
+            else:
+                const = int(tok)
+            if pos == 0:
+                es = self.size_align_of(cur)
+                if const is None:
+                    if tok != symtok or coef is not None:
+                        return None
+                    coef = es
+                else:
+                    off += const * es
+                continue
+            t = cur.strip()
+            if t.startswith("%"):
+                t = self.mod.structs[t]
+            m = re.fullmatch(r"\[(\d+) x (.+)\]", t)
+            if const is None:
+                if not m or tok != symtok or coef is not None:
+                    return None
+                coef = self.size_align_of(m.group(2))
+                cur = m.group(2)
+            else:
+                o, fty = self.mod.field(cur, const)
+                off += o
+                cur = fty
+        if coef is None or coef <= 0:
+            return None
+        return coef, off, self.size_align_of(cur) if len(toks) > 1 else self.size_align_of(ty)
+
+    def size_align_of(self, ty):
+        return self.mod.size_align(ty)[0]
 
     # ---- run ----
     def blocks_of(self, fname):
@@ -312,12 +359,15 @@ class Interp:
         return results
 
     def exec_path(self, st, blocks, blk, idx, prev, work, fname):
+        local_steps = 0
         while True:
             ins = blocks[blk][idx]
             idx += 1
             self.steps += 1
-            if self.steps > self.max_steps:
-                raise RuntimeError("cir step bound exceeded (unwinding assertion)")
+            local_steps += 1
+            if local_steps > self.max_steps:
+                # unwinding assertion: every loop of the functions encoded has a trip count fixed by the sizes the harness states
+                raise Violation(f"loop does not terminate within the unwinding bound ({self.max_steps} instructions on one path)")
             m = re.match(r"(%[\w.]+) = (.*)", ins)
             dst, rhs = (m.group(1), m.group(2)) if m else (None, ins)
             op = rhs.split()[0]
@@ -344,8 +394,42 @@ class Interp:
                     t_, v_ = x.split()
                     if v_.startswith("%"):
                         c = z3.simplify(st.regs[v_])
+                        if not z3.is_bv_value(c) and p.obj is not None:
+                            # memory safety first: the element addressed must lie inside the object for EVERY feasible index;
+                            # the exploration then continues with the in-bounds indices only
+                            lin = self._gep_linear(st, ty, idxs, v_)
+                            if lin is not None:
+                                coef, const_off, esz = lin
+                                osz = st.objs[p.obj].size
+                                base = p.off + const_off
+                                lo_i = -(base // coef)
+                                hi_i = (osz - base - esz) // coef
+                                inb = z3.And(c >= lo_i, c <= hi_i)
+                                self.oblige(st, inb, f"load/store out of bounds: symbolic index into {p} (element size {esz}, object size {osz})")
+                                st.pc.append(inb)
+                                if self.sat(st)[0] != "sat":
+                                    return None
                         if not z3.is_bv_value(c):
-                            raise NotImplementedError("symbolic index in getelementptr (outside the bound of cir)")
+                            # symbolic index: fork over every feasible value (bounded by index_cap; exceeding it is an error, never a
+                            # silent truncation).  This path continues with the first value, the others resume at this instruction.
+                            vals, probe = [], list(st.pc)
+                            while len(vals) <= self.index_cap:
+                                r_, m_ = self.sat(st, *[c != x for x in vals])
+                                if r_ != "sat":
+                                    break
+                                vals.append(m_.eval(c, model_completion=True))
+                            if len(vals) > self.index_cap:
+                                raise NotImplementedError(f"symbolic index in getelementptr with more than {self.index_cap} feasible values")
+                            if not vals:
+                                return None
+                            self.branches += len(vals) - 1
+                            for x in vals[1:]:
+                                s2 = st.clone()
+                                s2.pc.append(c == x)
+                                s2.regs[v_] = x
+                                work.append((s2, blk, idx - 1, prev))
+                            st.pc.append(c == vals[0])
+                            st.regs[v_] = c = vals[0]
                         ids.append(c.as_signed_long())
                     else:
                         ids.append(int(v_))
